@@ -169,3 +169,18 @@ type extraConfig struct {
 }
 
 var extraConfigs = map[string][]extraConfig{}
+
+// platformConfigs: properties whose anchors include build-tagged files (pkg/storage/mmap has a unix and a
+// windows mapping layer; int is 32 bits on 386) are re-decided under those configurations in the thorough
+// tier. The `rust` and `avo` tags cannot be type-checked in this sandbox (cgo library / generated assembly
+// stubs are absent), so kernels selected by those tags are outside every claim.
+func init() {
+	for _, id := range []string{"C13", "C18"} {
+		id := id
+		run := func(w *World, r *Report) { props[id].Run(w, r) }
+		extraConfigs[id] = []extraConfig{
+			{name: "windows-amd64", env: []string{"GOOS=windows", "GOARCH=amd64", "CGO_ENABLED=0"}, run: run},
+			{name: "linux-386", env: []string{"GOOS=linux", "GOARCH=386", "CGO_ENABLED=0"}, run: run},
+		}
+	}
+}
